@@ -2,15 +2,16 @@ import NodisVerif.Proofs.C08Step
 import NodisVerif.Driver.RespOps
 import NodisVerif.Model.Handler2
 import NodisVerif.Model.Handler3
+import NodisVerif.Model.Handler4
 /-
   The full dispatch of the server: `Driver.lookup` over the list of family tables
-  (`Main.tables = [Handler.table1, Handler2.table2, Handler3.table3]`).  A predicate of the form
+  (`Main.tables = [Handler.table1, Handler2.table2, Handler3.table3, Handler4.table4]`).  A predicate of the form
   "every result of the table is good" holds of the lookup if it holds of every family table.
 -/
 namespace NodisVerif.Proofs.C08Step
 
 /-- the family tables in the order of `Main.tables` -/
-def allTables : List Table := [Handler.table1, Handler2.table2, Handler3.table3]
+def allTables : List Table := [Handler.table1, Handler2.table2, Handler3.table3, Handler4.table4]
 
 /-- the server's complete handler table -/
 def fullTable : Table := Driver.lookup allTables
